@@ -493,3 +493,93 @@ def intersection_emptiness(facts):
                     out.append(ob("theta.intersection-empty", key, n["loc"], "violated", "the intersection marks itself empty under `%s`, which is not a test of its own accumulated theta: a result whose theta is already below 1 would be flagged empty (and all later updates ignored), depending on the order of inputs" % guard, fn["qname"]))
         walkp(fn["body"], visit)
     return out
+
+
+def ordered_flag_validity(facts):
+    """compact sketch constructors: is_ordered_ == true promises sorted entries to every consumer (early stop in union /
+    intersection, set_difference in a-not-b, binary layouts).  For each constructor that fills entries_ from another sketch:
+    with o := other.is_ordered(), p := the `ordered` parameter, f := the initialiser of is_ordered_ and g := the condition
+    guarding std::sort(entries_), the implication  f(o,p) && !o  =>  g(o,p,f)  must hold for all four (o,p) (truth table)."""
+    fns = functions_by(facts, ["theta", "tuple"])
+    out = []
+
+    def bev(e, env):
+        e = strip_all(e)
+        k = e.get("k")
+        if k == "Bin" and e.get("op") in ("&&", "||"):
+            a, b = bev(e["l"], env), bev(e["r"], env)
+            if a is None or b is None:
+                # three-valued
+                if e["op"] == "&&":
+                    return False if (a is False or b is False) else None
+                return True if (a is True or b is True) else None
+            return (a and b) if e["op"] == "&&" else (a or b)
+        if k == "Un" and e.get("op") == "!":
+            a = bev(e["e"], env)
+            return None if a is None else (not a)
+        if k == "Ref" and e.get("dk") == "param" and e.get("n") == "ordered":
+            return env["p"]
+        if k == "Call" and e.get("cname") == "is_ordered" and e.get("obj") is not None and strip_all(e["obj"]).get("k") == "Ref":
+            return env["o"]
+        if k == "Member" and e.get("f") == "is_ordered_" and strip_all(e.get("b") or {}).get("k") == "This":
+            return env["f"]
+        if k == "Call" and e.get("cname") == "is_ordered" and strip_all(e.get("obj") or {}).get("k") == "This":
+            return env["f"]
+        if k == "Bool" or (k in ("Int", "Cast") and "v" in e):
+            return bool(e.get("v"))
+        return None
+    for pat, fn in sorted(fns.items()):
+        if fn["kind"] != "ctor" and fn.get("special") is None and fn["name"] not in ("compact_theta_sketch_alloc", "compact_tuple_sketch"):
+            continue
+        if fn["name"] not in ("compact_theta_sketch_alloc", "compact_tuple_sketch") or fn.get("special"):
+            continue
+        ini = [i for i in fn.get("inits", []) if i.get("field") == "is_ordered_" and i.get("written")]
+        if not ini or not any(p.get("n") == "ordered" for p in fn["params"]):
+            continue
+        f = ini[0]["e"]
+        sorts = []
+
+        def v(n, guards=()):
+            pass
+        # collect guards of std::sort calls
+        def rec(n, guards):
+            if isinstance(n, list):
+                for x in n:
+                    rec(x, guards)
+                return
+            if not isinstance(n, dict):
+                return
+            if n.get("k") == "If":
+                rec(n.get("t"), guards + [n["c"]])
+                if n.get("e") is not None:
+                    rec(n["e"], guards + [{"k": "Un", "op": "!", "e": n["c"]}])
+                return
+            if n.get("k") == "Call" and (n.get("cname") == "sort" or (n.get("callee") or "").startswith("std::sort")):
+                sorts.append(list(guards))
+            for kk, vv in n.items():
+                if kk not in ("t", "e") or n.get("k") != "If":
+                    rec(vv, guards)
+        rec(fn["body"], [])
+        key = "%s(%s):ordered-flag-valid" % (short(fn["patq"]), ",".join(p["t"].split("<")[0].split("::")[-1].replace("const ", "").strip() for p in fn["params"]))
+        bad = []
+        for o in (False, True):
+            for p in (False, True):
+                fv = bev(f, {"o": o, "p": p, "f": None})
+                if fv is None:
+                    bad.append("is_ordered_ initialiser `%s` not understood" % txt(f))
+                    continue
+                if fv and not o:
+                    # some sort must certainly run: a sort whose guards other than data-emptiness tests are all true
+                    ran = False
+                    for gs in sorts:
+                        vals = [bev(g, {"o": o, "p": p, "f": fv}) for g in gs]
+                        # guards that do not involve the three atoms (e.g. !other.is_empty()) are neutral: nothing to sort when empty
+                        if all(x is True or x is None for x in vals) and any(x is True for x in vals):
+                            ran = True
+                    if not ran:
+                        bad.append("other.is_ordered()=%s, ordered=%s: is_ordered_ becomes true but no std::sort(entries_) runs" % (str(o).lower(), str(p).lower()))
+        if bad:
+            out.append(ob("theta.ordered-flag", key, fn["pat"], "violated", "; ".join(bad) + " - the result claims sorted entries that are in hash-table order; ordered consumers (early stop in union/intersection, set_difference in a-not-b) then drop or keep the wrong keys", fn["qname"]))
+        else:
+            out.append(ob("theta.ordered-flag", key, fn["pat"], "discharged", "for all (other.is_ordered(), ordered): is_ordered_ && !other.is_ordered() implies the guarded std::sort runs", fn["qname"]))
+    return out
